@@ -109,6 +109,7 @@ type Round struct {
 	N         int
 	WriteIdx  int // -1 for the round before any write
 	WriteErr  string
+	InWindow  bool     // observed from inside a segment rotation (Options.Window)
 	Rotated   []string // rotation hooks seen during the write
 	MV        *StreamObs
 	MVAlt     *hx.Resp // Options.AltQuery: index.m3u8 asked again, by "another viewer", with AltQuery
@@ -121,7 +122,11 @@ type Round struct {
 
 // History is the observation history of a case.
 type History struct {
-	DefaultsUsed int // parameters left at their zero value (documented defaults apply)
+	Overlapped     int // URIs fetched by two overlapping requests
+	inWindow       bool
+	curWrite       int
+	WindowRounds   int // observation rounds taken inside a segment rotation (Options.Window)
+	DefaultsUsed   int // parameters left at their zero value (documented defaults apply)
 	lastParsed     map[string]*m3u8x.Playlist
 	lastBody       map[string]string
 	writeStuck     bool
@@ -160,6 +165,10 @@ type Options struct {
 	RoundEvery     int  // observe every n-th write (default 1)
 	Delta          bool // Low-Latency: also fetch the delta update of every media playlist
 	AltQuery       bool // ask for index.m3u8 a second time with another query string (another viewer)
+	// Window: one more observation round inside every segment rotation, between the release of the
+	// muxer mutex and the broadcast (hook rotate.unlocked): what a request arriving at that very
+	// moment sees. Everything an ordinary round is checked for must hold there too.
+	Window bool
 }
 
 func streamIDs(c *media.Case) ([]string, []string) {
@@ -266,9 +275,29 @@ func New(c *media.Case, o Options) *History {
 			h.mu.Lock()
 			h.rotated = append(h.rotated, arg.(string))
 			h.mu.Unlock()
+			if o.Window && arg.(string) == "segments" && !h.inWindow {
+				// (runs in the goroutine of the Write* call that is rotating)
+				h.inWindow = true
+				h.windowRound(o)
+				h.inWindow = false
+			}
 		}
 	})
 	return h
+}
+
+// windowRound observes from inside a rotation; the rotation marks are left for the round that
+// follows the write.
+func (h *History) windowRound(o Options) {
+	h.mu.Lock()
+	saved := append([]string{}, h.rotated...)
+	h.mu.Unlock()
+	r := h.Observe(h.curWrite, nil, o)
+	r.InWindow = true
+	h.WindowRounds++
+	h.mu.Lock()
+	h.rotated = saved
+	h.mu.Unlock()
 }
 
 // Cleanup closes the muxer (if not yet closed) and removes the temp dir.
@@ -313,6 +342,7 @@ func (h *History) DoWrite(i int) error {
 	if h.writeStuck {
 		return ErrWriteStuck
 	}
+	h.curWrite = i
 	type result struct {
 		err error
 		pnc any
@@ -538,6 +568,11 @@ func (h *History) Observe(wi int, werr error, o Options) *Round {
 	}
 	r.Rotated = h.takeRotated()
 	rot := len(r.Rotated) > 0
+	if h.inWindow {
+		// the broadcast of this rotation has not happened yet: requests that are waiting for
+		// content are still parked, and rightly so
+		rot = false
+	}
 	h.mu.Lock()
 	r.EncErrs = append([]string{}, h.EncErrs...)
 	h.mu.Unlock()
@@ -754,6 +789,25 @@ func (h *History) fetchURI(r *Round, u *URIRec, uri string) {
 			u.Body = nil
 		}
 		return
+	}
+	if u.Fetches == 2 && u.Kind != "init" && u.Status == 200 && !h.inWindow {
+		// two clients at once: A has its response under way (blocked in its first body Write, a
+		// slow client) while B fetches the same URI completely; both must get the listed bytes
+		gate := make(chan struct{})
+		a := hx.StartGated(h.M.Handle, h.q(uri), nil, gate)
+		select {
+		case <-a.AtGate:
+			b := h.GetNow(uri)
+			close(gate)
+			if a.Wait(1<<30, Watchdog) == hx.Done && a.Resp != nil && b != nil {
+				h.Overlapped++
+				if sha256.Sum256(a.Resp.Body) != u.Hash || sha256.Sum256(b.Body) != u.Hash {
+					u.Mismatch = append(u.Mismatch, fmt.Sprintf("round %d: two overlapping fetches returned %d and %d bytes, the listed resource has %d (or other content)", r.N, len(a.Resp.Body), len(b.Body), u.Len))
+				}
+			}
+		case <-time.After(Watchdog):
+			close(gate)
+		}
 	}
 	if resp.Status != u.Status {
 		u.Mismatch = append(u.Mismatch, fmt.Sprintf("round %d: status changed %d -> %d", r.N, u.Status, resp.Status))
